@@ -422,6 +422,18 @@ def judge_history(phases, h, eng_calls, mod_calls):
     j = Judge(phases, blocks_by_id(h))
     unj = None
     if len(eng_calls) != len(h) + 1:
+        # the engine process died. One cause is known and is not a store matter: SOLID_SOLUTIONS_MODIFY naming a solid
+        # solution inside an assemblage that SOLID_SOLUTIONS_MIX built from nothing creates a solid solution without
+        # parameters; the next calculation that uses it dereferences them (SIGSEGV). Recognised from the model's
+        # provenance of the modified entry; any other crash is a violation.
+        prov = {}
+        for m in mod_calls:
+            prov.update(m["T"])
+        for p in prov.values():
+            if p[:2] == ["mod", "ss"] and prov.get(int(p[2]), [""])[0] == "emix":
+                return ("finding", "crash-modify-of-empty-solid-solution",
+                        f"engine process died after call {len(eng_calls) - 1}: a solid solution added by "
+                        "SOLID_SOLUTIONS_MODIFY to an empty (mixed from nothing) assemblage is used in a calculation"), j.stats, None
         return ("bad", f"engine produced {len(eng_calls)} call results for {len(h) + 1} calls (crash?)"), j.stats, None
     for ci, (e, m) in enumerate(zip(eng_calls, mod_calls)):
         r = j.call(ci, e, m)
@@ -605,6 +617,10 @@ def probe_copy_findings(ctx, exe, db, facts):
 # ------------------------------------------------------------------------------------------------ main
 def check_chunk(ctx, exe, db, phases, templates, cfg, chunk):
     eng, crashed, errtail = run_engine(exe, db, chunk, templates)
+    while crashed and errtail != "timeout" and 0 < len(eng) < len(chunk):
+        # the process died inside history len(eng)-1 (judged as such below); the rest of the chunk runs in a new process
+        more, crashed, errtail = run_engine(exe, db, chunk[len(eng):], templates)
+        eng += more
     mod = run_model(ctx, chunk, templates, cfg)
     res = []
     for i, h in enumerate(chunk):
@@ -679,7 +695,7 @@ def run(ctx):
     nchunk = max(1, min(len(hists) // 4, vlib.NCPU * 2))
     chunks = [hists[i::nchunk] for i in range(nchunk)]
     totals = {"entries": 0, "memo_hits": 0, "mod_checked": 0, "comp_checked": 0, "stops": 0, "viscosity_rewritten": 0}
-    unjudged, judged_calls, bad = {}, 0, None
+    unjudged, judged_calls, bad, found = {}, 0, None, {}
     with concurrent.futures.ThreadPoolExecutor(max_workers=vlib.NCPU) as ex:
         futs = [ex.submit(check_chunk, ctx, exe, db, phases, templates, cfg, c) for c in chunks]
         for c, f in zip(chunks, futs):
@@ -689,8 +705,19 @@ def run(ctx):
                 judged_calls += len(h)
                 if unj:
                     unjudged[unj[:60]] = unjudged.get(unj[:60], 0) + 1
-                if r and bad is None:
+                if r and r[0] == "finding":
+                    if r[1] not in found:
+                        found[r[1]] = (h, r)
+                elif r and bad is None:
                     bad = (h, r)
+    for key, (h, r) in found.items():
+        items = flatten(h)
+
+        def same(sub, key=key):
+            rr, _, _ = one_history(ctx, exe, db, phases, templates, cfg, unflatten(sub))
+            return rr is not None and rr[0] == "finding" and rr[1] == key
+        hs = unflatten(shrink_list(items, same, max_iter=80))
+        ctx.finding(key, r[2], {"history": hs, "calls": [G.render_run(run_, templates) for run_ in hs]})
     if bad:
         h, r = bad
         ctx.log("disagreement:", r[1][:300])
@@ -752,7 +779,9 @@ def replay(ctx, data):
         templates = harvest_templates(exe, db)
         r, st, unj = one_history(ctx, exe, db, phases, templates, facts["copy_loop"], data["history"])
         print("replay:", r, unj)
-        if r:
+        if r and r[0] == "finding":
+            ctx.finding(r[1], r[2], data)
+        elif r:
             ctx.violation("replayed history still disagrees: " + r[1][:400], data)
     elif "runcells_case" in data:
         r = run_runcells_case(exe, db, data["runcells_case"])
